@@ -12,7 +12,7 @@ extra = open(sys.argv[2]).read().strip() if len(sys.argv) > 2 else ""
 design = open(os.path.join(VERIF, "DESIGN.md")).read()
 design = design[design.index("### 8.6"):]
 rows = {}
-for m in re.finditer(r"^\| (C\d\d)(-r\d)? \| (.*?) \| (.*?) \|$", design, re.M):
+for m in re.finditer(r"^\| (C\d\d)(-r\d+)? \| (.*?) \| (.*?) \|$", design, re.M):
     rows.setdefault(m.group(1), []).append(re.sub(r"\*\*", "", m.group(3)).replace("\\|", "|"))
 props = {json.loads(l)["id"]: json.loads(l) for l in open(os.path.join(VERIF, "properties.jsonl"))}
 RULES_HEAD = """You are helping test a verification framework by writing ONE realistic, subtle bug ("seeded change") into a scratch copy of an open-source C library (rweather/skinny-c: SKINNY-64/128 and Mantis tweakable block ciphers, with ECB, CTR and parallel modes plus SIMD back ends).
